@@ -804,5 +804,5 @@ def _worker(arg):
 
 
 def run(ctx):
-    n = ctx.scale(8000, 400000)
+    n = ctx.scale(6000, 400000)
     ctx.pmap(_worker, [(subseed(ctx.seed, PID, w), n // 16, not ctx.quick) for w in range(16)])
